@@ -364,7 +364,11 @@ def quick_grid(ctx, m, n):
 
 
 def thorough_grid(ctx, m, n):
-    return [grid_case(ctx, c, T, m, n) for c in grid_configs() for T in TS]
+    """every grid configuration at T=3 (the T=3 run exercises the initial, middle and final step
+    of both passes); the shorter lengths on the stratified subset"""
+    full = [grid_case(ctx, c, 3, m, n) for c in grid_configs()]
+    short = [c for c in quick_grid(ctx, m, n) if c["T"] < 3]
+    return full + short
 
 
 def case_strategy(ctx, m, n, shape):
@@ -449,11 +453,11 @@ def shard_slice(items, shard, nshards):
 
 
 def run(ctx):
-    m = ctx.pick(3, 6)
+    m = ctx.pick(6, 12)
     n = ctx.pick(20000, 40000)
     grid = quick_grid(ctx, m, n) if ctx.quick else thorough_grid(ctx, m, n)
     ctx.extra["grid_cases_total"] = len(grid) if ctx.shard == 0 else 0
-    ctx.extra["grid_size_full"] = len(list(grid_configs())) * len(TS) if ctx.shard == 0 else 0
+    ctx.extra["grid_configurations"] = len(list(grid_configs())) if ctx.shard == 0 else 0
     grid.sort(key=lambda c: (c["N"], c["T"], c["kt"], c["ko"], c["st"], c["so"]))
     state = {"n": 0}
     mine = shard_slice(grid, ctx.shard, ctx.nshards)
@@ -465,12 +469,9 @@ def run(ctx):
     # non-trivial shapes, starting from the shape the shard already has compiled), everything
     # else (truncations, float variances, observation sequences, key) is drawn.
     shapes = [(N, T) for N in NS for T in TS if T >= 2 and N >= 3] + [(2, 3), (5, 1)]
-    if mine:
-        shape = (mine[-1]["N"], mine[-1]["T"])
-    else:
-        shape = shapes[(ctx.shard + ctx.seed) % len(shapes)]
-    if ctx.shard % 4 == 3:  # a quarter of the shards rotate through all shapes instead
-        shape = shapes[(ctx.shard // 4 + ctx.seed) % len(shapes)]
+    shape = shapes[(ctx.shard + ctx.seed) % len(shapes)]
+    if mine and mine[-1]["N"] >= 3 and mine[-1]["T"] >= 2 and ctx.shard % 4 != 3:
+        shape = (mine[-1]["N"], mine[-1]["T"])  # already compiled in this process
 
     def chk(case):
         ctx.note_case(case, nontrivial=is_nontrivial(case), classes=classes_of(case))
@@ -479,6 +480,8 @@ def run(ctx):
         finally:
             _housekeeping(state)
 
+    if ctx.quick and ctx.shard == 0:
+        return  # shard 0 runs the two regression probes instead (same cost)
     ctx.run_hypothesis(case_strategy(ctx, m, n, shape), chk, ctx.pick(2, 2), salt="hyp")
 
 
